@@ -191,12 +191,29 @@ def register(w):
             "forall[int](lambda j: implies(0 <= j and j < _i, scheduled[states_to_enter[j]]))",
         ])
 
-    @w.contract(BI + "_enter_states", props=["C01", "C03"])
+    @w.contract(BI + "_enter_states", props=["C01", "C03", "C05", "C09"])
     def _(c):
-        c.trusted = ("assumed for the asyncio engine (same clauses as the sync body, which is proved for all but contract E's legality clause); "
-                     "bounded: bounded.c01/c03 on both engines")
+        # the asyncio twin of the entry routine: proved for the same clauses as the sync body (all but contract E's legality clause)
         c.no_runtime = True
         enter_clauses(c)
+        c.user_effect = "action"
+        c.ghost_param("hb", INT, default="height(root) + 1")
+        c.req("ghost:hb >= 0 and forall[int](lambda i: implies(0 <= i and i < len(states_to_enter), height(states_to_enter[i]) < hb))")
+        c.decreases = "hb"
+        c.ghost("scheduled", MapSort(Node, BOOL))
+        c.after("self._schedule_state_tasks(state)", "scheduled = store(scheduled, state, True)")
+        c.label_props = {"every-entered-state-has-its-tasks-scheduled": ["C09", "C01"]}
+        c.ens("forall[int](lambda i: implies(0 <= i and i < len(states_to_enter), final_scheduled[states_to_enter[i]]))",
+              label="ghost:every-entered-state-has-its-tasks-scheduled")
+        c.before("await self._enter_states([initial_child], trigger_event)", "ghostarg_hb = height(state)")
+        c.before("await self._enter_states(regions, trigger_event)", "ghostarg_hb = height(state)")
+        c.loop(0, inv=[
+            f"forall[Node](lambda n: implies(n in old({A}), n in {A}))",
+            f"forall[int](lambda j: implies(0 <= j and j < _i, states_to_enter[j] in {A}))",
+            E3, APP_E, "status_reach(old(self.status), self.status)", ANN_E,
+            "forall[int](lambda j: implies(0 <= j and j < _i, scheduled[states_to_enter[j]]))",
+            "trigger_event != None",
+        ])
 
     @w.contract(BI + "_resolve_output", props=["C10"])
     def _(c):
@@ -209,6 +226,21 @@ def register(w):
         c.trusted = "assumed total and effect-free: a literal, or a user callable whose exception is caught (returns None); A-user"
         c.no_runtime = True
         c.param("output", OPAQUE).returns(OPAQUE)
+
+    AI = "xstate_statemachine.interpreter:Interpreter."
+
+    @w.contract(AI + "send", props=["C04", "C14", "C05"])
+    def _(c):
+        # the asyncio engine's send(): never processes inline - it only enqueues (or drops, once the interpreter is finished)
+        c.no_runtime = True
+        c.param("event_or_type", OPAQUE)
+        c.mod(Q, ACC)
+        FIN = "(old(self.status) == 'stopped' or old(self.status) == 'done' or old(self.status) == 'error')"
+        c.ens(f"implies({FIN}, same({Q}, old({Q})) and same({ACC}, old({ACC})))", label="finished-interpreter-drops-the-event")
+        c.ens(f"implies(not {FIN}, len({Q}) == len(old({Q})) + 1)", label="otherwise-exactly-one-event-is-queued")
+        c.ens(APP_E, label="ghost:queue-append-only")
+        c.may_raise("TypeError", ensures=[f"same({Q}, old({Q})) and same({ACC}, old({ACC}))"])
+        c.after("await self._event_queue.put(event_obj)", f"{ACC} = append({ACC}, event_obj)")
 
     FIRE_MODS = ["self.status", "self.output", Q, ACC]
 
@@ -237,12 +269,14 @@ def register(w):
                        "ancestor == None or anc(final_state, ancestor)"],
                decreases="ite(ancestor != None, ancestor.depth + 1, 0)")
 
-    @w.contract(BI + "_check_and_fire_on_done", props=["C10"])
+    @w.contract(BI + "_check_and_fire_on_done", props=["C10", "C05"])
     def _(c):
-        c.trusted = "assumed for the asyncio engine (same clauses as the proved sync body); bounded: bounded.c10"
         c.no_runtime = True
         c.mod(*FIRE_MODS)
         fire_clauses(c)
+        UNTOUCHED = " and ".join(f"same({f}, old({f}))" for f in [*FIRE_MODS])
+        c.loop(0, inv=[UNTOUCHED, "ancestor == None or anc(final_state, ancestor)"],
+               decreases="ite(ancestor != None, ancestor.depth + 1, 0)")
 
     @w.contract(SI + "start", props=["C14", "C04", "C01"])
     def _(c):
